@@ -106,7 +106,7 @@ theorem translation_gap (pp : List Vec3) (ax1 : Nat) (atol : Rat) (q : Quat) (cp
     (∀ x, Vec3.sub (I x) (C x) = Vec3.sub (cpos.getD 0 Vec3.zero) (C p0)) ∧
     CloseTo (cpos.getD 0 Vec3.zero) (C p0) atol := by
   intro p0 C I
-  exact ⟨fun x => frame_shift q p0 _ _ _ x, (goodCheck_iff pp ax1 atol q cpos).mp hgood 0 hne⟩
+  exact ⟨fun x => frame_shift q p0 _ _ _ x, goodCheck_closeTo pp ax1 atol q cpos hgood 0 hne⟩
 
 /-- **joint_image_bound** — the property's "bound proportional to the tolerance".
     Guards: the match passed `goodCheck`; non-empty search pattern; non-degenerate cell.
@@ -134,7 +134,7 @@ theorem joint_image_bound (L : Mat3) (hd : L.det ≠ 0) (pp : List Vec3) (ax1 : 
   intro p0 C I
   constructor
   · intro k hk a b ck c0
-    have hall := (goodCheck_iff pp ax1 atol m.q m.pos).mp hgood
+    have hall := goodCheck_closeTo pp ax1 atol m.q m.pos hgood
     obtain ⟨hkx, hky, hkz⟩ := hall k hk
     obtain ⟨h0x, h0y, h0z⟩ := hall 0 hne
     have hs := frame_shift m.q p0 (pp.getD ax1 Vec3.zero) (m.pos.getD 0 Vec3.zero) (m.pos.getD ax1 Vec3.zero)
